@@ -75,11 +75,13 @@ package websocket
 //@ func writeFrameHeader
 //@ tags C02
 //@ requires w != nil && len(buf) == 8 && h.payloadLength >= 0 && 0 <= h.opcode && h.opcode <= 15
-//@ requires [stream-bound] 0 <= ghwr(w).pos && ghwr(w).pos < 1<<60
-//@ modifies ghwr(w).pos, ghwr(w).out, bytes(buf)
+//@ requires [stream-bound] 0 <= ghwr(w).pos && ghwr(w).pos < 1<<60 && 0 <= ghwr(w).buffered && ghwr(w).buffered <= ghwr(w).size
+//@ modifies ghwr(w).pos, ghwr(w).out, ghwr(w).buffered, bytes(buf)
 //@ ensures [len] err == nil ==> ghwr(w).pos == old(ghwr(w).pos) + specHdrLen(h)
 //@ ensures [enc] err == nil ==> forall(0, specHdrLen(h), func(k int) bool { return ghwr(w).out[old(ghwr(w).pos)+k] == specHdrByte(h, k) })
 //@ ensures [prefix] forall(0, old(ghwr(w).pos), func(k int) bool { return ghwr(w).out[k] == old(ghwr(w).out[k]) })
+//@ ensures [err-kind] !errIsCE(err) && err != io.EOF
+//@ ensures [buf-range] 0 <= ghwr(w).buffered && ghwr(w).buffered <= ghwr(w).size && ghwr(w).pos < 1<<59 && ghwr(w).pos >= old(ghwr(w).pos)
 
 // ---------------------------------------------------------------------------
 // close.go, value level  (C06, C02: what may be sent; C03: what is accepted)
@@ -94,6 +96,7 @@ package websocket
 //@ ensures [len] result1 == nil ==> len(result0) == 2+len(ce.Reason)
 //@ ensures [code] result1 == nil ==> specBE16(result0[0], result0[1]) == int(ce.Code)
 //@ ensures [reason] result1 == nil ==> forall(0, len(ce.Reason), func(k int) bool { return result0[2+k] == ce.Reason[k] })
+//@ ensures [fresh] gvcFreshSlice(result0) && !errIsCE(result1)
 
 //@ func (CloseError).bytes
 //@ tags C06 C02
@@ -103,6 +106,7 @@ package websocket
 //@ ensures [reason] result1 == nil ==> forall(0, len(ce.Reason), func(k int) bool { return result0[2+k] == ce.Reason[k] })
 //@ ensures [fallback] result1 != nil ==> len(result0) == 2 && specBE16(result0[0], result0[1]) == 1011
 //@ ensures [bound] len(result0) <= 125
+//@ ensures [fresh] gvcFreshSlice(result0) && !errIsCE(result1)
 
 //@ func parseClosePayload
 //@ tags C06 C03
@@ -184,33 +188,38 @@ package websocket
 
 // Footprints (textual macros).
 //@ define RDFP ghrd(c.br).pos, c.readHeaderBuf, c.readControlBuf, chanstate(c.readTimeout)
-//@ define WRFP ghwr(c.bw).pos, ghwr(c.bw).out, c.writeHeader, c.writeHeaderBuf, bytes(c.writeBuf), chanstate(c.writeTimeout), chanstate(c.writeFrameMu.ch), gh(c).closeSent
+//@ define WRFP ghwr(c.bw).pos, ghwr(c.bw).out, ghwr(c.bw).buffered, ghrd(specRand()).pos, c.writeHeader, c.writeHeaderBuf, bytes(c.writeBuf), chanstate(c.writeTimeout), chanstate(c.writeFrameMu.ch), gh(c).closeSent
 //@ define CLFP chanstate(c.readMu.ch), chanstate(c.msgWriter.writeMu.ch), c.br, c.msgReader.flateReader, c.msgReader.dict, c.msgWriter.flateWriter
 
 // Write-side and close-side callees of the read path. Their contracts are stated here
 // and proved against their bodies further below (write.go / close.go sections).
 
 //@ func (*Conn).writeError
-//@ assumed in-package contract, not yet proved against its body (listed as assumed in the evidence)
 //@ tags C03 C08 C16
-//@ requires connInv(c) && err != nil
+//@ requires connInv(c) && specWriteInv(c) && err != nil && !gvcHeld(c.writeFrameMu.ch)
 //@ modifies $WRFP
-//@ ensures [inv] connInv(c)
+//@ ensures [inv] connInv(c) && specWriteInv(c) && !gvcHeld(c.writeFrameMu.ch)
 
 //@ func (*Conn).writeControl
-//@ assumed in-package contract, not yet proved against its body (listed as assumed in the evidence)
 //@ tags C02 C15 C10
-//@ requires connInv(c) && ctx != nil && len(p) <= 125 && opcode >= 8 && opcode <= 10
+//@ requires connInv(c) && specWriteInv(c) && ctx != nil && len(p) <= 125 && opcode >= 8 && opcode <= 10 && !gvcHeld(c.writeFrameMu.ch)
+//@ requires [alias] len(p) == 0 || ((c.client ==> gvcRegion(c.writeBuf) != gvcRegion(p)) && gvcRegion(c.writeHeaderBuf[:]) != gvcRegion(p))
 //@ modifies $WRFP
-//@ ensures [inv] connInv(c)
+//@ ensures [inv] connInv(c) && specWriteInv(c) && !gvcHeld(c.writeFrameMu.ch)
 //@ ensures [fresh-err] result != io.EOF && !errIsCE(result)
+//@ ensures [frame] {C02 C15} result == nil ==> specFrameHeaderOK(c.writeHeader, c.client, true, false, opcode, len(p)) && ghwr(c.bw).pos == old(ghwr(c.bw).pos)+specHdrLen(c.writeHeader)+len(p)
+//@ ensures [hdr-bytes] {C02 C15} result == nil ==> forall(0, specHdrLen(c.writeHeader), func(k int) bool { return ghwr(c.bw).out[old(ghwr(c.bw).pos)+k] == specHdrByte(c.writeHeader, k) })
+//@ ensures [payload-plain] {C02 C15} result == nil && !c.client ==> forall(0, len(p), func(k int) bool { return ghwr(c.bw).out[old(ghwr(c.bw).pos)+specHdrLen(c.writeHeader)+k] == p[k] })
+//@ ensures [rearm] {C10} result == nil && !gvcClosed(c.closed) ==> gvcArmed(c.writeTimeout) == context.Background()
+//@ ensures [closed-fails] {C06} old(gvcClosed(c.closed)) ==> result != nil
 
 //@ func (*Conn).writeClose
-//@ assumed in-package contract, not yet proved against its body (listed as assumed in the evidence)
-//@ tags C06 C16
-//@ requires connInv(c)
+//@ tags C06 C16 C02
+//@ requires connInv(c) && specWriteInv(c) && !gvcHeld(c.writeFrameMu.ch)
 //@ modifies $WRFP
-//@ ensures [inv] connInv(c)
+//@ ensures [inv] connInv(c) && specWriteInv(c) && !gvcHeld(c.writeFrameMu.ch)
+//@ ensures [invalid-not-sent] {C06 C02} code != StatusNoStatusRcvd && !(specSendableCode(code) && len(reason) <= specMaxReason) ==> result != nil && ghwr(c.bw).pos == old(ghwr(c.bw).pos)
+//@ ensures [err-kind] !errIsCE(result)
 
 //@ func (*Conn).close
 //@ assumed in-package contract, not yet proved against its body (listed as assumed in the evidence)
@@ -251,7 +260,7 @@ package websocket
 // read.go: message level (C03, C04, C08, C01)
 
 //@ define RDFPm ghrd(mr.c.br).pos, mr.c.readHeaderBuf, mr.c.readControlBuf, chanstate(mr.c.readTimeout)
-//@ define WRFPm ghwr(mr.c.bw).pos, ghwr(mr.c.bw).out, mr.c.writeHeader, mr.c.writeHeaderBuf, bytes(mr.c.writeBuf), chanstate(mr.c.writeTimeout), chanstate(mr.c.writeFrameMu.ch), gh(mr.c).closeSent
+//@ define WRFPm ghwr(mr.c.bw).pos, ghwr(mr.c.bw).out, ghwr(mr.c.bw).buffered, ghrd(specRand()).pos, mr.c.writeHeader, mr.c.writeHeaderBuf, bytes(mr.c.writeBuf), chanstate(mr.c.writeTimeout), chanstate(mr.c.writeFrameMu.ch), gh(mr.c).closeSent
 //@ define CLFPm chanstate(mr.c.readMu.ch), chanstate(mr.c.msgWriter.writeMu.ch), mr.c.br, mr.c.msgReader.flateReader, mr.c.msgReader.dict, mr.c.msgWriter.flateWriter
 
 //@ func (*msgReader).read
@@ -271,7 +280,7 @@ package websocket
 //@ func (*limitReader).Read
 //@ tags C08
 //@ requires lr.c != nil && connInv(lr.c) && lr.c.msgReader.limitReader == lr && ghconn(lr.r) == lr.c && lr.r != nil
-//@ modifies bytes(p), lr.n, ghrd(lr.c.br).pos, lr.c.readHeaderBuf, lr.c.readControlBuf, chanstate(lr.c.readTimeout), ghwr(lr.c.bw).pos, ghwr(lr.c.bw).out, lr.c.writeHeader, lr.c.writeHeaderBuf, bytes(lr.c.writeBuf), chanstate(lr.c.writeTimeout), chanstate(lr.c.writeFrameMu.ch), gh(lr.c).closeSent, chanstate(lr.c.readMu.ch), chanstate(lr.c.msgWriter.writeMu.ch), lr.c.br, lr.c.msgReader.flateReader, lr.c.msgReader.dict, lr.c.msgWriter.flateWriter, lr.c.msgReader.fin, lr.c.msgReader.payloadLength, lr.c.msgReader.maskKey
+//@ modifies bytes(p), lr.n, ghrd(lr.c.br).pos, lr.c.readHeaderBuf, lr.c.readControlBuf, chanstate(lr.c.readTimeout), ghwr(lr.c.bw).pos, ghwr(lr.c.bw).out, lr.c.writeHeader, lr.c.writeHeaderBuf, bytes(lr.c.writeBuf), chanstate(lr.c.writeTimeout), chanstate(lr.c.writeFrameMu.ch), gh(lr.c).closeSent, ghwr(lr.c.bw).buffered, ghrd(specRand()).pos, chanstate(lr.c.readMu.ch), chanstate(lr.c.msgWriter.writeMu.ch), lr.c.br, lr.c.msgReader.flateReader, lr.c.msgReader.dict, lr.c.msgWriter.flateWriter, lr.c.msgReader.fin, lr.c.msgReader.payloadLength, lr.c.msgReader.maskKey
 //@ ensures [n] 0 <= result0 && result0 <= len(p)
 //@ ensures [unlimited] old(lr.n) < 0 ==> lr.n == old(lr.n)
 //@ ensures [exhausted] old(lr.n) == 0 ==> result0 == 0 && result1 != nil && !errIs(result1, io.EOF) && !errIs(result1, io.ErrUnexpectedEOF)
@@ -379,18 +388,38 @@ package websocket
 
 //@ func (*Conn).writeFramePayload
 //@ tags C02 C01
-//@ requires connInv(c) && c.bw != nil && 0 <= ghwr(c.bw).pos && ghwr(c.bw).pos < 1<<60 && len(p) < 1<<56
-//@ requires [buf] 0 < ghwr(c.bw).size && 0 <= ghwr(c.bw).buffered && ghwr(c.bw).buffered <= ghwr(c.bw).size && (c.writeHeader.masked ==> len(c.writeBuf) == ghwr(c.bw).size && gvcRegion(c.writeBuf) != gvcRegion(p))
+//@ requires connInv(c) && c.bw != nil && 0 <= ghwr(c.bw).pos && ghwr(c.bw).pos < 1<<59 && len(p) < 1<<56
+//@ requires [buf] 0 < ghwr(c.bw).size && 0 <= ghwr(c.bw).buffered && ghwr(c.bw).buffered <= ghwr(c.bw).size && (c.writeHeader.masked ==> len(c.writeBuf) == ghwr(c.bw).size && (len(p) == 0 || gvcRegion(c.writeBuf) != gvcRegion(p)))
 //@ modifies ghwr(c.bw).pos, ghwr(c.bw).out, ghwr(c.bw).buffered, bytes(c.writeBuf)
 //@ ensures [n] err == nil ==> n == len(p)
 //@ ensures [pos] err == nil ==> ghwr(c.bw).pos == old(ghwr(c.bw).pos)+len(p)
 //@ ensures [plain] {C02 C01} err == nil && !c.writeHeader.masked ==> forall(0, len(p), func(k int) bool { return ghwr(c.bw).out[old(ghwr(c.bw).pos)+k] == p[k] })
 //@ ensures [prefix] forall(0, old(ghwr(c.bw).pos), func(k int) bool { return ghwr(c.bw).out[k] == old(ghwr(c.bw).out[k]) })
 //@ ensures [caller-buf] {C01} forall(0, len(p), func(k int) bool { return p[k] == old(p[k]) })
-//@ ensures [not-ce] !errIsCE(err)
+//@ ensures [not-ce] !errIsCE(err) && err != io.EOF
+//@ ensures [buf-range] 0 <= ghwr(c.bw).buffered && ghwr(c.bw).buffered <= ghwr(c.bw).size && ghwr(c.bw).pos < 1<<59 && ghwr(c.bw).pos >= old(ghwr(c.bw).pos)
 //@ loop 1 modifies ghwr(c.bw).pos, ghwr(c.bw).out, ghwr(c.bw).buffered, bytes(c.writeBuf)
 //@ loop 1 decreases len(p)
 //@ loop 1 invariant [acct] gvcSuffixOf(p, old(p)) && n == len(old(p))-len(p) && maskKey == specRot(c.writeHeader.maskKey, n) && c.writeHeader.masked
-//@ loop 1 invariant [pos] ghwr(c.bw).pos == old(ghwr(c.bw).pos)+n && 0 <= ghwr(c.bw).buffered && ghwr(c.bw).buffered <= ghwr(c.bw).size
+//@ loop 1 invariant [pos] ghwr(c.bw).pos == old(ghwr(c.bw).pos)+n && ghwr(c.bw).pos < 1<<59 && 0 <= ghwr(c.bw).buffered && ghwr(c.bw).buffered <= ghwr(c.bw).size
 //@ loop 1 invariant [prefix] forall(0, old(ghwr(c.bw).pos), func(k int) bool { return ghwr(c.bw).out[k] == old(ghwr(c.bw).out[k]) })
 //@ loop 1 invariant [caller-buf] forall(0, len(old(p)), func(k int) bool { return old(p)[k] == old(p[k]) })
+
+//@ func (*Conn).writeFrame
+//@ tags C02 C10 C05 C06
+//@ requires connInv(c) && ctx != nil && !gvcHeld(c.writeFrameMu.ch) && 0 <= opcode && opcode <= 15 && len(p) < 1<<56
+//@ requires [stream] specWriteInv(c) && (len(p) == 0 || ((c.client ==> gvcRegion(c.writeBuf) != gvcRegion(p)) && gvcRegion(c.writeHeaderBuf[:]) != gvcRegion(p)))
+//@ modifies $WRFP
+//@ ensures [hdr-fields] {C02} err == nil ==> specFrameHeaderOK(c.writeHeader, c.client, fin, flate, opcode, len(p))
+//@ ensures [hdr-bytes] {C02} err == nil ==> forall(0, specHdrLen(c.writeHeader), func(k int) bool { return ghwr(c.bw).out[old(ghwr(c.bw).pos)+k] == specHdrByte(c.writeHeader, k) })
+//@ ensures [len] {C02} err == nil ==> ghwr(c.bw).pos == old(ghwr(c.bw).pos)+specHdrLen(c.writeHeader)+len(p)
+//@ ensures [payload-plain] {C02 C01} err == nil && !c.client ==> forall(0, len(p), func(k int) bool { return ghwr(c.bw).out[old(ghwr(c.bw).pos)+specHdrLen(c.writeHeader)+k] == p[k] })
+//@ ensures [prefix] {C02} forall(0, old(ghwr(c.bw).pos), func(k int) bool { return ghwr(c.bw).out[k] == old(ghwr(c.bw).out[k]) })
+//@ ensures [mask-key-fresh] {C02} err == nil && c.client ==> c.writeHeader.maskKey == specDecKey(rdin(specRand(), old(ghrd(specRand()).pos)), rdin(specRand(), old(ghrd(specRand()).pos)+1), rdin(specRand(), old(ghrd(specRand()).pos)+2), rdin(specRand(), old(ghrd(specRand()).pos)+3)) && ghrd(specRand()).pos == old(ghrd(specRand()).pos)+4
+//@ ensures [flushed] {C02} err == nil && fin ==> ghwr(c.bw).buffered == 0
+//@ ensures [rearm] {C10} err == nil && !gvcClosed(c.closed) ==> gvcArmed(c.writeTimeout) == context.Background()
+//@ ensures [unlocked] {C05} !gvcHeld(c.writeFrameMu.ch)
+//@ ensures [closed-fails] {C06} old(gvcClosed(c.closed)) ==> err != nil
+//@ ensures [caller-buf] {C01} forall(0, len(p), func(k int) bool { return p[k] == old(p[k]) })
+//@ ensures [inv] connInv(c) && specWriteInv(c)
+//@ ensures [err-kind] !errIsCE(err) && err != io.EOF
